@@ -5,8 +5,47 @@ RULE = ("generated evolutions; for every case the real planner is re-run on the 
         "and MigrationPlan::with_prefix must equal the literal renaming; non-trivial = plan with >=2 actions of >=2 kinds or >=2 tables, distinct by hash")
 
 
+def parts(chk, res, rows):
+    """The halves of C14 below and above the planner: SQL generation per backend (derived names carry the prefix: Properties/C14_<backend>.v
+    + prefix_agrees evaluated inside Coq on every generated migration) and the CLI (`sql` / `log` of a prefixed project print exactly what
+    they print for the literally renamed project: coq/cli/Properties/C14_cli.v + the real binary run on both projects)."""
+    import importlib, os
+    import vflib
+    out = {}
+    for mod, fn, gate in (("sqliterun", "c14_part", "C02"), ("pgrun", "c14_part", "C03"), ("mysqlrun", "c14_part", "C04"), ("clirun", "c14_part", "C13")):
+        if not os.path.exists(os.path.join(vflib.ROOT, "props", gate + ".json")):
+            out[mod] = "layer not finished yet (props/%s.json absent)" % gate
+            continue
+        try:
+            r = getattr(importlib.import_module(mod), fn)(chk.tier, chk.seed)
+        except Exception as e:
+            out[mod] = "error: %s" % e
+            chk.violation(vflib.write_replay("C14", "correspondence:%s.%s" % (mod, fn), {"error": str(e)[-1500:]}), True)
+            continue
+        out[mod] = {k: r.get(k) for k in ("ok", "obligations", "discharged", "details")}
+        chk.cov["obligations"] += int(r.get("obligations", 0) or 0)
+        chk.cov["discharged"] += int(r.get("discharged", 0) or 0)
+        if not r.get("ok", False):
+            fi = r.get("failing_input")
+            chk.violation(vflib.write_replay("C14", ("oracle:%s-prefix" if fi else "theorem:%s-prefix") % mod, {"input": fi, "details": r.get("details")}), not fi)
+    chk.cov["parts"] = out
+    # the CLI statement of C14 is pinned in the cli layer
+    if os.path.exists(os.path.join(vflib.ROOT, "coq", "cli", "Properties", "C14_cli.v")):
+        rc, log = vflib.build_layer("cli", targets=vflib.model_targets("cli") + ["Properties/C14_cli.vo"])
+        if rc != 0:
+            chk.violation(vflib.write_replay("C14", "theorem:C14_cli-build", {"layer": "cli", "log_tail": log[-2500:]}), True)
+            chk.cov["obligations"] += 2
+        else:
+            r = vflib.compile_property("cli", "C14_cli")
+            chk.cov["obligations"] += r["obligations"]
+            chk.cov["discharged"] += r["discharged"]
+            chk.cov["theorems"] = chk.cov.get("theorems", []) + r["theorems"]
+            if r["discharged"] < r["obligations"] or r.get("axioms"):
+                chk.violation(vflib.write_replay("C14", "theorem:C14_cli", {"result": {k: r.get(k) for k in ("obligations", "discharged", "axioms", "failed")}}), True)
+
+
 def run(tier, seed):
-    return m1run.m1_check("C14", tier, seed, subchecks=[4, 9], oracle_key="c14", known_ids=[], rule=RULE,
+    return m1run.m1_check("C14", tier, seed, subchecks=[4, 9], oracle_key="c14", known_ids=[], rule=RULE, extra=parts,
                           assumptions=["tie: K-diff(plan_next) and K-prefix (MigrationPlan::with_prefix) evaluated inside Coq on every case",
                                        "prefixes are assumed to contain no '.' (normalize_literal_dot_refuted shows the hypothesis is necessary)",
                                        "proved for all inputs: diff_equivariant, with_prefix_is_literal (no inline FK), apply_equivariant (no user index name equal to a derived name), plan_next_equivariant",
